@@ -1,9 +1,11 @@
 import Driver.Basic
+import Driver.C35
 open Mitum Mitum.Driver
 
 def step (line : String) : String :=
   match tokens line with
   | "C02" :: ts => stepC02 ts
+  | "C35" :: ts => stepC35 ts
   | _ => "bad-op"
 
 partial def loop (h : IO.FS.Stream) (out : IO.FS.Stream) : IO Unit := do
